@@ -46,6 +46,10 @@ Definition getv (o : option val) : val := match o with Some v => v | None => VUn
 Definition mapv (m : mode) (f : val -> val) (o : option val) : option val :=
   match m with Emit => Some (f (getv o)) | Check => None end.
 
+(* nested_in: given a token, None if it is not a group, else a runner for a parse of the group's children:
+   user state in -> mode -> grammar -> environment -> (outcome, secondary errors, pending error, user state out) *)
+Definition nested_t := tok -> option (N -> mode -> G -> env -> outcome * list lerr * option lerr * N).
+
 (* Known defects of the code, each behind a flag.  The flag vector that matches /repo today is
    chosen by the correspondence check (and is tied to the code by it); the refinement theorems
    are about the machine with every flag off.  A flag is switched off for good when the
@@ -59,10 +63,12 @@ Record quirks := mkQ {
   q_exact_noalt : bool;     (* F10: collect_exactly fails without recording an error when the iterator ends early *)
   q_emptychoice_none : bool; (* F16: choice(&[]) reports found = None although not at the end of input *)
   q_memo_take : bool;       (* F5: memoized takes the pending error on failure and replays it at the call position *)
-  memo_on : bool            (* not a defect: whether memoized() uses its table at all; the refinement theorems are
+  memo_on : bool;           (* not a defect: whether memoized() uses its table at all; the refinement theorems are
                                stated for the machine without tables, C11 relates the two *)
+  nested : option nested_t  (* how nested_in runs a parser on the children of a group token (None: not available;
+                               the theorems about [go] leave nested_in out, Model/Nested.v ties the knot) *)
 }.
-Definition no_quirks : quirks := mkQ false false false false false false false false false.
+Definition no_quirks : quirks := mkQ false false false false false false false false false None.
 
 Section Machine.
 Variable Q : quirks.
@@ -470,6 +476,16 @@ with pratt_loop (fuel : nat) (m : mode) (atom : G) (ops : list pop) (ctx : env) 
   end.
 
 End Loops.
+
+(* NestedIn::go + InputRef::with_input after the inner parse returned: inner secondary errors are appended
+   re-located at the outer cursor, the sheltered pending error is restored and the inner one merged into it at
+   the outer cursor, the user state (shared with the inner parse) is taken over; s1 = the state after `b` *)
+Definition nested_glue (inner : outcome * list lerr * option lerr * N) (s1 : st) : outcome * st :=
+  match inner with
+  | (r, isec, ialt, iust) =>
+      let s2 := mkSt (cur s1) (sec s1 ++ map (fun e => (cur s1, snd e)) isec) (alt s1) iust (memo s1) in
+      (r, match ialt with Some (_, e) => alt_err s2 (cur s1) e | None => s2 end)
+  end.
 
 Definition ctxify (l : nat) (start : nat) (e : lerr) : lerr :=
   (fst e, in_context K l (spn start (fst e)) (snd e)).
@@ -879,6 +895,21 @@ Fixpoint go (n : nat) (m : mode) (g : G) (ctx : env) (s : st) {struct n} : outco
       | None => (Panic 98, s)                    (* unbound recursive reference: ill-formed grammar *)
       end
   | Pratt atom ops => pratt_go run n' m atom ops ctx 0 s
+  | GroupArr gs => group_loop run m gs ctx [] s
+  | NestedIn a =>
+      match nested Q with
+      | None => (Panic 97, s)
+      | Some f =>
+          let before := save s in
+          match next s with
+          | (Some t, s1) =>
+              match f t with
+              | Some inner => nested_glue (inner (ust s1) m (ThenIgnore a End) ctx) s1
+              | None => (Err, alt_ef (rewind s1 before) [pSomethingElse] (Some t) (spn (cur s) (cur s1)))
+              end
+          | (None, s1) => (Err, alt_ef (rewind s1 before) [pSomethingElse] None (spn (cur s) (cur s1)))
+          end
+      end
   end
   end.
 
